@@ -126,6 +126,7 @@ SIM_CHECKS = {
         'ub': True,
         'bitmap': True,
         'gen_stage': True,
+        'msan_stage': True,
         'rule': ('Each evaluation is one seeded run of the whole simulated device in the ASan+UBSan build: tz clients of every '
                  'kind (incl. manual / error), queries of every kind with valid, boundary, far out-of-range, sentinel, INT32-extreme '
                  'and invalid-component arguments, failing queries repeated 1-3 times and interleaved with valid ones, save / reboot / '
@@ -580,6 +581,14 @@ def run_sim_check(prop, tier, verif_seed, spec=None, runs_override=None):
             print('VIOLATION property=%s replay=%s' % (prop, gpath))
             violations += 1
             exit_code = 1
+    msan_info = None
+    if spec.get('msan_stage') and exit_code == 0 and not runs_override:
+        from . import msanprobe as M
+        msan_info, mpath = M.sweep(prop, tier, verif_seed)
+        if mpath:
+            print('VIOLATION property=%s replay=%s' % (prop, mpath))
+            violations += 1
+            exit_code = 1
     py_half = None
     if spec.get('py_stage') and exit_code == 0:
         from pysim import check as P
@@ -656,6 +665,8 @@ def run_sim_check(prop, tier, verif_seed, spec=None, runs_override=None):
         cov['exhaustive_cached_year_pair_sweep'] = sweep08
     if gen_zones:
         cov['compiler_generated_zone_sweep'] = gen_zones
+    if msan_info:
+        cov['memory_sanitizer_probe'] = msan_info
     doc = {
         'property_id': prop, 'tier': tier, 'seed': verif_seed, 'level': 'exploration',
         'coverage': cov, 'assumptions': spec['assumptions'], 'wall_s': round(wall, 2),
